@@ -21,6 +21,9 @@ def run(chk):
     r1(chk, prog)
     own.rule_leaks(chk, prog, "C08.R2")
     r3(chk, prog)
+    from .. import heapuse
+    heapuse.rule_free_const_param(chk, prog, "C08.R5")
+    heapuse.rule_dangling_fields(chk, prog, "C08.R6")
     with chk.shared():
         # R4 failure atomicity of the string set operation (shared with C11): a failed set must not have freed or written anything
         from . import c11
